@@ -28,7 +28,7 @@ from vf.props.common import harness_error, inconclusive, proved, violation
 ID = "C15"
 LEVEL = "model_checking"
 ITEM_BUDGET_S = {"quick": 400, "thorough": 1500}
-QT = {"quick": 6000, "thorough": 90000}
+QT = {"quick": 3000, "thorough": 20000}
 _TIER = "quick"
 BIG = 10 ** 9
 
@@ -80,12 +80,14 @@ def base_terms():
     for i, nd in enumerate(nodes):
         out.append((f"node{i}", [nd, K.X, nodes[(i + 1) % len(nodes)], ("velem", v, 1), K.Y, nd]))
     out.append(("param", [("param", "p"), K.X, ("const", ("sym", "c")), K.Y, ("param", "p"), ("num", 2.0)]))
+    # a constant FIRST, then vector reductions and more constants (reflected operators at the bottom of the spine)
+    out.append(("constfirst", [("const", 4.0), ("vsum", v), ("num", 1.0), ("lincomb", [("sym", "k0"), 2.0, -1.0], v), ("const", ("sym", "c")), ("dot", v, v)]))
     return out
 
 
 def small_recipes(tier):
     out = []
-    rich = {"x", "sin", "node0", "param"}
+    rich = {"x", "sin", "node0", "param", "constfirst"}
     for tag, terms in base_terms():
         for op in ("+", "-", "*", "/"):
             sizes = (2, 3, 6) if (op in ("+", "-") or tag in rich or tier == "thorough") else (2, 3)
@@ -155,6 +157,7 @@ def observe(recipe, val, th):
         rec("compile", lambda: C.compile_expression(e, V)(x))
         rec("gradient", lambda: [A.gradient(e, v).evaluate(point) for v in V])
         rec("compile_gradient", lambda: list(np.asarray(C.compile_gradient(e, V)(x)).reshape(-1)))
+        rec("compile_jacobian", lambda: list(np.asarray(A.compile_jacobian([e], V)(x)).reshape(-1)))
         return out
     finally:
         restore_thresholds(old)
@@ -468,7 +471,7 @@ def replay(payload):
                     r, ok = K.concrete_ref(recipe, val)
                 if ok and np.isfinite(float(r)) and not K.close(float(np.asarray(got).item()), float(r), 1e-6, 1e-9):
                     return True, f"{name} = {float(np.asarray(got).item())!r} but the formula gives {float(r)!r}"
-            elif name in ("gradient", "compile_gradient") and th is not None:
+            elif name in ("gradient", "compile_gradient", "compile_jacobian") and th is not None:
                 for gv, w in zip(got, cols):
                     with np.errstate(all="ignore"):
                         r, ok = K.concrete_ref(recipe, val, diff=1, wrt=w)
